@@ -273,7 +273,12 @@ task_interval.contract_fn = "curves.BaseCurve.__add__"
 
 
 def tasks(tier, seed):
-    ts = []
+    from ..pyvc.driver import verify
+    from ..contracts import curvesv
+    # operators with a scalar operand and copy, at the level of control points, for curves with ANY number of control points: a new curve whose control points are
+    # -P_i, s + P_i, P_i - s, s - P_i, s * P_i, P_i / s (ZeroDivisionError for s == 0), same knot-vector content and weights, operand unchanged
+    ts = [(verify, (c, m, q, v)) for c, m, q, v in curvesv.ALL if q in ("BaseCurve.__neg__", "BaseCurve.__add__", "BaseCurve.__radd__", "BaseCurve.__sub__", "BaseCurve.__rsub__",
+                                                                           "BaseCurve.__mul__", "BaseCurve.__rmul__", "BaseCurve.__truediv__", "BaseCurve.__deepcopy__")]
     for pr in pairs(tier):
         for variant in ((0, 1) if tier == "quick" else (0, 1, 2)):
             ts.append((task_binary, (pr, variant, False, tier)))
@@ -353,7 +358,7 @@ def replay(o):
 
 
 INFO = dict(
-    assumptions=A.S_COMMON + [A.A4], trusted_base=A.TRUSTED, min_obligations=150, level="other",
+    assumptions=A.S_COMMON + [A.A4, A.A11, A.A12], trusted_base=A.TRUSTED, min_obligations=150, level="other",
     explanation="C08: operator overloads of BaseCurve with symbolic control points (and symbolic positive weights) of both operands on concrete knot-vector "
                 "pairs: (A op B)(u) == A(u) op B(u) as an identity of rational functions in (P_A, P_B, W_A, W_B, u) on every common span; scalars and matrices "
                 "symbolic; operands unmodified; different intervals -> ValueError.",
